@@ -3,6 +3,8 @@ search rules (C01-C05, C22-C24)."""
 from sym import Walker, strip, show, mentions, TRANSPARENT, CLONE
 
 NODE_TY = "solution_node::SolutionNode"
+# private functions the solver rules name themselves (never inlined into their callers)
+KEEP = ()
 
 
 def is_verdict_ty(s):
@@ -41,6 +43,8 @@ class Solver:
         self.entry = entry[0] if len(entry) == 1 else None
         self.and_fn = self.or_fn = self.bip_fn = None
         self.paths_cache = {}
+        import inline
+        self.inline = inline.helpers(prog, keep=KEEP)
         if self.entry is not None:
             for p in self.paths(self.entry, 2):
                 kinds = goal_kinds(p)
@@ -86,7 +90,7 @@ class Solver:
         max_visits += self.extra_unroll
         key = (body.path, max_visits)
         if key not in self.paths_cache:
-            self.paths_cache[key] = Walker(body, max_visits=max_visits).paths()
+            self.paths_cache[key] = Walker(body, max_visits=max_visits, inline=self.inline).paths()
         return self.paths_cache[key]
 
     def is_fetch(self, callee):
@@ -202,4 +206,42 @@ def outcome_of(path, res):
                 return "Some" if val else "None"
             if c[1].endswith("::is_none"):
                 return "None" if val else "Some"
+    return None
+
+
+_CMP = {"Eq": lambda a, b: a == b, "Ne": lambda a, b: a != b, "Lt": lambda a, b: a < b, "Le": lambda a, b: a <= b,
+        "Gt": lambda a, b: a > b, "Ge": lambda a, b: a >= b}
+
+
+def emptiness_test(ev):
+    """A branch event that is taken exactly when some collection is empty (`len == 0`, `!(len > 0)`, `len < 1`,
+    `is_empty()`): returns the collection term, else None."""
+    if ev.get("k") != "branch":
+        return None
+    c, v = ev["cond"], ev["value"]
+    neg = False
+    while isinstance(c, tuple) and c[0] == "unop" and c[1] == "Not":
+        c, neg = c[2], not neg
+    if not isinstance(v, bool):
+        return None
+    v = v != neg
+    if c[0] == "call" and c[1].endswith("::is_empty") and len(c[2]) == 1:
+        return strip(c[2][0]) if v else None
+    if c[0] != "binop" or c[1] not in _CMP:
+        return None
+    a, b = strip(c[2]), strip(c[3])
+    def islen(t):
+        return t[0] == "call" and t[1].endswith("::len") and len(t[2]) == 1
+    def const(t):
+        return t[3] if t[0] == "const" and isinstance(t[3], int) else None
+    if islen(a) and const(b) is not None:
+        f = lambda n: _CMP[c[1]](n, const(b))
+        coll = a
+    elif islen(b) and const(a) is not None:
+        f = lambda n: _CMP[c[1]](const(a), n)
+        coll = b
+    else:
+        return None
+    if f(0) == v and all(f(n) != v for n in (1, 2, 3, 1000)):
+        return strip(coll[2][0])
     return None
